@@ -106,22 +106,34 @@ WellFormedPeers(out, tbl, Nn, Cc, kind, props) ==
                   /\ (kind # "P" => Len(out) >= 2 * Cc
                                     /\ Range(out) \cap {props[i] : i \in 1..(IF Cc < Len(props) THEN Cc ELSE Len(props))} = {})
 
+(* ---------------- the round after a chain-config block ---------------- *)
+(* Server.updateParticipantConfig selects the participants of round b from the last sealed block b-1: the table in force is
+   the NewChainConfig carried by block b-1 if it carries one, else the node's current chain config (Server.config is only
+   switched later, by the asynchronous block-persisted event).  A config is a record [n, c, tbl]; new = NoCfg: block b-1
+   carries none.  The selection must be the same for a node that has and one that has not switched Server.config yet. *)
+NoCfg == [n |-> 0, c |-> 0, tbl |-> <<>>]
+InForce(cur, new) == IF new.tbl = <<>> THEN cur ELSE new
+RoundBuild(vrf, cur, new) == LET f == InForce(cur, new) IN Build(vrf, f.tbl, f.n, f.c)
+
 (* ---------------- P-MC: all seeds x tables of a scaled layout ---------------- *)
-CONSTANTS Tables     \* set of position tables
-VARIABLES vrf0, tbl0
-svars == <<vrf0, tbl0>>
+CONSTANTS Tables,     \* set of position tables (the node's current config)
+          NewTables,  \* set of tables a preceding chain-config block may carry; <<>> = the block carries none
+          SeedBytes   \* byte values of the seed
+VARIABLES vrf0, tbl0, new0
+svars == <<vrf0, tbl0, new0>>
 Peers(tbl) == Cardinality(Range(tbl))
-Init == vrf0 \in [1..VrfLen -> 0..255] /\ tbl0 \in Tables
+CfgOf(tbl) == IF tbl = <<>> THEN NoCfg ELSE [n |-> Peers(tbl), c |-> Peers(tbl) \div 3, tbl |-> tbl]
+Init == vrf0 \in [1..VrfLen -> SeedBytes] /\ tbl0 \in Tables /\ new0 \in NewTables
 Spec == Init /\ [][UNCHANGED svars]_svars
-PropC40 == LET Nn == Peers(tbl0)
-               Cc == Nn \div 3
-           IN WellFormed(Build(vrf0, tbl0, Nn, Cc), tbl0, Cc)
+Force0 == InForce(CfgOf(tbl0), CfgOf(new0))
+PropC40 == WellFormed(RoundBuild(vrf0, CfgOf(tbl0), CfgOf(new0)), Force0.tbl, Force0.c)
 \* each range on its own, with the proposers of the selection and with an arbitrary proposer list drawn from the seed
 PropC40Ranges ==
-    LET Nn == Peers(tbl0)
-        Cc == Nn \div 3
-        r  == Build(vrf0, tbl0, Nn, Cc)
-        pr == IF r.err THEN <<tbl0[(vrf0[1] % Len(tbl0)) + 1], tbl0[(vrf0[2] % Len(tbl0)) + 1]>> ELSE r.p
+    LET Nn == Force0.n
+        Cc == Force0.c
+        tb == Force0.tbl
+        r  == Build(vrf0, tb, Nn, Cc)
+        pr == IF r.err THEN <<tb[(vrf0[1] % Len(tb)) + 1], tb[(vrf0[2] % Len(tb)) + 1]>> ELSE r.p
     IN \A kind \in {"P", "E", "C"} :
-         WellFormedPeers(CalcPeers(vrf0, tbl0, Nn, Cc, kind, IF kind = "P" THEN <<>> ELSE pr), tbl0, Nn, Cc, kind, pr)
+         WellFormedPeers(CalcPeers(vrf0, tb, Nn, Cc, kind, IF kind = "P" THEN <<>> ELSE pr), tb, Nn, Cc, kind, pr)
 =============================================================================
